@@ -1,2 +1,237 @@
+"""Model of the two exporters: symbolic pipeline (get_nodes -> layout -> engine -> layout) for a
+small concrete list of symbolic items, and the emission events of every add_* method of both back-ends,
+as templates with holes.  Consumed by C07, C08, C09, C10, C20.
+"""
+import ast
+import re
+
+from .util import *
+from ..sym import Template, Cat, LazyHeap
+
+DIRECTIONS = ("up", "down", "left", "right")
+SVG = "timeline.TimelineSVG"
+TEX = "timeline.TimelineTex"
+
+
+class Pipe:
+    """One symbolic run of Timeline.compute() for `n` items in one configuration."""
+
+    def __init__(self, ctx, backend, direction, n=2, show_border=False, show_ticks=True, tick_cross=False, chain=False):
+        P = ctx.P
+        self.ctx, self.P = ctx, P
+        self.backend = backend
+        self.direction = direction
+        self.cls = P.cls(backend)
+        self.log = []
+        self.emits = []  # SVG elements
+        self.elem_k = 0
+        self.chain = chain
+        ev = new_eval(P, on_call=self.hook)
+        self.ev = ev
+        st = ev.new_state(module="timeline")
+        self.st = st
+        s = Opaque("self", cls=self.cls, kind="obj")
+        self.self = s
+        d = ev.resolve_global("timeline", "DEFAULT_OPTIONS")
+        opts = DictV({k: Opaque("opt:%s" % k) for k in d.items})
+        opts.items["direction"] = Const(direction)
+        opts.items["showBorder"] = Const(show_border)
+        opts.items["showTicks"] = Const(show_ticks)
+        opts.items["labelPadding"] = DictV({k: Num.atom("pad_" + k) for k in ("left", "right", "top", "bottom")})
+        opts.items["margin"] = DictV({k: Num.atom("m_" + k) for k in ("left", "right", "top", "bottom")})
+        opts.items["initialWidth"] = Num.atom("IW")
+        opts.items["initialHeight"] = Num.atom("IH")
+        opts.items["layerGap"] = Num.atom("G")
+        opts.items["dotRadius"] = Num.atom("R")
+        opts.items["labella"] = Opaque("LABELLA")
+        opts.items["scale"] = Opaque("SCALE", kind="obj")
+        lat = d.items.get("latex")
+        latd = DictV({k: Opaque("latex:%s" % k) for k in (lat.items if isinstance(lat, DictV) else [])})
+        latd.items["tickCross"] = Const(tick_cross)
+        latd.items["reproducible"] = Const(False)
+        opts.items["latex"] = latd
+        for cn in ("dotColor", "linkColor", "labelBgColor", "labelTextColor", "borderColor"):
+            opts.items[cn] = Opaque("opt:%s" % cn, kind="obj")
+        self.opts = opts
+        st.heap[("self", "options")] = opts
+        st.heap[("self", "direction")] = Const(direction)
+        items = []
+        for i in range(n):
+            it = Opaque("ITEM%d" % i, kind="obj")
+            st.heap[(it.text, "width")] = Num.atom("iw%d" % i)
+            st.heap[(it.text, "height")] = Num.atom("ih%d" % i)
+            st.heap[(it.text, "text")] = Opaque("TEXT%d" % i, kind="str")
+            st.heap[(it.text, "data")] = Opaque("DATUM%d" % i, kind="obj")
+            ev.assume("truth(TEXT%d)" % i, True)
+            items.append(it)
+        self.items = items
+        st.heap[("self", "items")] = Seq("list", items)
+        f = P.func("timeline.Timeline.compute")
+        r = ev.call_closure(Closure(f, None, selfv=s), [], {}, st)
+        self.compute_result = r
+        self.nodes = []
+        self.renderer = None
+        if isinstance(r, Seq) and len(r.items) == 2 and isinstance(r.items[0], Seq):
+            self.nodes = list(r.items[0].items)
+            self.renderer = r.items[1]
+            st.heap[("self", "nodes")] = r.items[0]
+            st.heap[("self", "renderer")] = r.items[1]
+
+    # hooks ------------------------------------------------------------------------
+    def hook(self, fv, args, kwargs, node, st):
+        if isinstance(fv, ClassRef) and fv.cls.qual == "force.Force":
+            self.log.append(("Force", [key(a) for a in args]))
+            return Opaque("FORCE", cls=fv.cls, kind="obj")
+        if isinstance(fv, Closure):
+            q = fv.func.qual
+            if q == "force.Force.nodes":
+                if args:
+                    self.log.append(("force.nodes(set)", [key(a) for a in args]))
+                    st.heap[("FORCE", "_nodes")] = args[0]
+                    return NONE
+                self.log.append(("force.nodes()", []))
+                cur = st.heap.get(("FORCE", "_nodes"))
+                if isinstance(cur, Seq):
+                    # the engine may reorder the list it was given (algorithm "none" sorts in place)
+                    return Seq("list", list(reversed(cur.items)), ident="A:force.nodes()")
+                return cur
+            if q == "force.Force.compute":
+                self.log.append(("force.compute", []))
+                nodes = st.heap.get(("FORCE", "_nodes"))
+                if isinstance(nodes, Seq):
+                    for i, n in enumerate(nodes.items):
+                        if isinstance(n, Opaque):
+                            st.heap[(n.text, "currentPos")] = Num.atom("P%d" % i)
+                            st.heap[(n.text, "layerIndex")] = C(1) if self.chain else Num.atom("L%d" % i)
+                return NONE
+            if q == "timeline.Timeline.timePos":
+                self.log.append(("timePos", [key(a) for a in args]))
+                k = key(args[0]) if args else "?"
+                return Num.atom("TPOS(%s)" % k)
+            if q == "renderer.Renderer.layout":
+                self.log.append(("layout", [key(a) for a in args]))
+                return None
+            if q == "node.Node.getPathFromRoot" and self.chain:
+                # label in layer 1 with its stub in layer 0
+                n = fv.selfv
+                stub = Opaque("STUB(%s)" % n.text, cls=fv.func.cls, kind="obj")
+                return Seq("list", [stub, n])
+            if q == "node.Node.getPathFromRoot":
+                return Seq("list", [fv.selfv])
+            if q == "node.Node.getRoot" and self.chain:
+                return Opaque("STUB(%s)" % fv.selfv.text, cls=fv.func.cls, kind="obj")
+            if q in ("utils.int2name", "utils.hex2rgbstr", "utils.hex2html", "tex.uni2tex"):
+                return Opaque("%s(%s)" % (fv.func.name, ", ".join(key(a) for a in args)), kind="str")
+            if q.startswith("timeline.Timeline.") and q.endswith("Color") and fv.func.name != "colorFunc":
+                return None
+            if q == "timeline.Timeline.colorFunc":
+                return Opaque("COLOR(%s)" % ", ".join([key(a) for a in args] + ["%s=%s" % kv for kv in sorted((k, key(v)) for k, v in kwargs.items())]), kind="str")
+        if isinstance(fv, Ext) and fv.name.endswith("ElementTree.SubElement"):
+            self.elem_k += 1
+            e = Opaque("ELEM%d" % self.elem_k, kind="obj")
+            attrib = kwargs.get("attrib")
+            if attrib is None and len(args) > 2:
+                attrib = args[2]
+            snap = {}
+            if isinstance(attrib, DictV):
+                snap = dict(attrib.items)
+            for k, v in kwargs.items():
+                if k != "attrib":
+                    snap[k] = v
+            self.emits.append({"elem": e.text, "parent": key(args[0]) if args else None, "tag": key(args[1]).strip("'") if len(args) > 1 else None, "attrib": snap})
+            return e
+        if isinstance(fv, Ext) and fv.name.endswith("ElementTree.Element"):
+            return Opaque("ROOT", kind="obj")
+        if isinstance(fv, Opaque) and fv.text == "SCALE":
+            return Num.atom("SCALE(%s)" % ", ".join(key(a) for a in args))
+        if isinstance(fv, Opaque) and fv.text == "SCALE.ticks":
+            self.log.append(("scale.ticks", [key(a) for a in args]))
+            return Seq("list", [Opaque("TICK0"), Opaque("TICK1")], ident="A:ticks#%d" % len(self.log))
+        if isinstance(fv, Opaque) and fv.text == "SCALE.tickFormat":
+            self.log.append(("scale.tickFormat", [key(a) for a in args]))
+            return Opaque("FMT")
+        if isinstance(fv, Opaque) and fv.text == "FMT":
+            return Opaque("FMT(%s)" % ", ".join(key(a) for a in args), kind="str")
+        return None
+
+    # helpers ----------------------------------------------------------------------
+    def item_index(self, node):
+        d = self.st.heap.get((node.text, "data"))
+        for k, it in enumerate(self.items):
+            if d is not None and key(d) == it.text:
+                return k
+        return None
+
+    def field(self, node, attr):
+        return self.st.heap.get((node.text, attr))
+
+    def call(self, meth, *args):
+        f = self.P.method(self.cls, meth)
+        if f is None:
+            raise AnchorMissing("%s.%s" % (self.backend, meth))
+        return f, self.ev.call_closure(Closure(f, None, selfv=self.self), list(args), {}, self.st)
+
+    def run_svg(self, meth):
+        n0 = len(self.emits)
+        e0 = len(self.st.events)
+        f, r = self.call(meth, Opaque("LAYER", kind="obj"))
+        texts = {}
+        for e in self.st.events[e0:]:
+            if e[0] == "setattr" and e[2] == "text" and e[1].startswith("ELEM"):
+                texts[e[1]] = e[3]
+        out = self.emits[n0:]
+        for em in out:
+            if em["elem"] in texts:
+                em["text"] = texts[em["elem"]]
+        return f, out, r
+
+    def run_tex(self, meth):
+        doc = Seq("list", [], ident="DOC")
+        f, r = self.call(meth, doc)
+        return f, list(doc.items), r
+
+
+def flat(v, holes=None):
+    """Flatten a string value to text with numbered holes <k>; returns (text, holes[(value, spec)])."""
+    holes = [] if holes is None else holes
+    if isinstance(v, Template):
+        out = []
+        for p in v.parts:
+            if p[0] == "lit":
+                out.append(p[1])
+            else:
+                inner, spec = p[1], p[2]
+                if isinstance(inner, Template) and spec in ("raw", "%s", "str", "f:"):
+                    t, _ = flat(inner, holes)
+                    out.append(t)
+                elif isinstance(inner, Const) and isinstance(inner.v, str) and spec in ("raw", "%s", "str"):
+                    out.append(inner.v)
+                else:
+                    holes.append((inner, spec))
+                    out.append("<%d>" % (len(holes) - 1))
+        return "".join(out), holes
+    if isinstance(v, Const):
+        return str(v.v), holes
+    holes.append((v, "raw"))
+    return "<%d>" % (len(holes) - 1), holes
+
+
+def pipes(ctx):
+    def build():
+        out = {}
+        for backend in (SVG, TEX):
+            for d in DIRECTIONS:
+                out[(backend, d)] = Pipe(ctx, backend, d, n=2)
+        return out
+
+    return ctx.get("pipes", build)
+
+
+def pipe(ctx, backend, direction, **kw):
+    k = ("pipe", backend, direction, tuple(sorted(kw.items())))
+    return ctx.get(k, lambda: Pipe(ctx, backend, direction, **kw))
+
+
 def kind_index_rule(ctx, R):
-    pass
+    from .c09 import colour_slots
+    return colour_slots(ctx, R, rule_id="C20.KIND")
